@@ -181,7 +181,16 @@ func (s *scn) twinCheck(h uint64, ev *pb.CommitEvent, txs []*pb.BxhTransaction, 
 		f := txs[pick]
 		nb := &pb.Block{BlockHeader: &pb.BlockHeader{Version: ev.Block.BlockHeader.Version, Number: h, Timestamp: ev.Block.BlockHeader.Timestamp}, Transactions: &pb.Transactions{}}
 		for i, tx := range txs {
-			if i == pick {
+			if i == pick && metas[i].eth != nil {
+				// the neutral counterpart of an Ethereum-format transaction: same sender and nonce, no gas, so that the
+				// node turns it down before it runs (no fee is taken from either)
+				n, err := ethTx(s.cfg.World.ChainID, metas[i].ethLabel, f.Nonce, nil, new(big.Int), 0, big.NewInt(1), nil)
+				if err != nil {
+					s.res.Aborted = "twin: " + err.Error()
+					return
+				}
+				nb.Transactions.Transactions = append(nb.Transactions.Transactions, n)
+			} else if i == pick {
 				n := &pb.BxhTransaction{From: f.From, To: f.To, Timestamp: f.Timestamp, Nonce: f.Nonce}
 				k := metas[i].sender
 				if k != nil {
@@ -190,7 +199,7 @@ func (s *scn) twinCheck(h uint64, ev *pb.CommitEvent, txs []*pb.BxhTransaction, 
 				n.TransactionHash = n.Hash()
 				nb.Transactions.Transactions = append(nb.Transactions.Transactions, n)
 			} else {
-				nb.Transactions.Transactions = append(nb.Transactions.Transactions, tx)
+				nb.Transactions.Transactions = append(nb.Transactions.Transactions, blockTx(tx, metas[i]))
 			}
 		}
 		ll := append([]bool(nil), ev.LocalList...)
@@ -224,9 +233,27 @@ func (s *scn) twinCheck(h uint64, ev *pb.CommitEvent, txs []*pb.BxhTransaction, 
 			goto resync
 		}
 		if len(diff) > 0 {
-			s.vio("C07", "failed-tx-effect", metas[pick].kind+"/"+failClass(string(rc.Ret)),
-				"block %d tx %d (%s %s) FAILED with %q, yet compared with the same block where it is replaced by an empty transaction of the same sender and nonce the state differs in keys %q",
-				h, pick, metas[pick].kind, metas[pick].note, rc.Ret, trimKeys(diff))
+			vals := ""
+			if len(diff) <= 2 {
+				for _, k := range diff {
+					vals += fmt.Sprintf(" [%s: %q vs %q]", trimKeys([]string{k})[0], dumpValue(da, k), dumpValue(db, k))
+				}
+			}
+			discr := metas[pick].kind + "/" + failClass(string(rc.Ret))
+			onlyEmpty := true
+			for _, k := range diff {
+				if !strings.HasPrefix(k, "account-") || dumpValue(db, k) != "<absent>" || dumpValue(da, k) != `{"nonce":0,"balance":0,"code_hash":null}` {
+					onlyEmpty = false
+				}
+			}
+			if onlyEmpty {
+				// known family (root cause of C10/…/account-touched-unchanged): an account that was only touched is
+				// materialised as an empty record at flush, here by a transaction that failed
+				discr = "empty-account-record-materialised"
+			}
+			s.vio("C07", "failed-tx-effect", discr,
+				"block %d tx %d (%s %s) FAILED with %q, yet compared with the same block where it is replaced by an empty transaction of the same sender and nonce the state differs in keys %q%s",
+				h, pick, metas[pick].kind, metas[pick].note, rc.Ret, trimKeys(diff), vals)
 			s.vio("C02", "rejected-ibtp-effect", metas[pick].kind, "block %d tx %d: rejected %s %s (%q) changed state keys %q", h, pick, metas[pick].kind, metas[pick].note, rc.Ret, trimKeys(diff))
 			s.vio("C03", "rejected-ibtp-effect", metas[pick].kind, "block %d tx %d: rejected %s %s (%q) changed state keys %q", h, pick, metas[pick].kind, metas[pick].note, rc.Ret, trimKeys(diff))
 			s.vio("C17", "refused-call-effect", metas[pick].note, "block %d tx %d: refused call %s (%q) changed state keys %q", h, pick, metas[pick].note, rc.Ret, trimKeys(diff))
@@ -242,7 +269,8 @@ func (s *scn) twinCheck(h uint64, ev *pb.CommitEvent, txs []*pb.BxhTransaction, 
 				isAdmin = true
 			}
 		}
-		if !isAdmin {
+		if !isAdmin && metas[pick].kind != "eth" {
+			// (an Ethereum-format transaction pays its own gas price, or nothing when it is turned down before it runs)
 			d := new(big.Int).Sub(valOr0(bb[f.From.String()]), valOr0(ba[f.From.String()])) // twin has more if A paid more
 			want := new(big.Int).Sub(feeA, feeB)
 			if d.Cmp(want) != 0 && valOr0(ba[f.From.String()]).Sign() != 0 {
@@ -251,6 +279,9 @@ func (s *scn) twinCheck(h uint64, ev *pb.CommitEvent, txs []*pb.BxhTransaction, 
 		}
 		// later receipts equal
 		for j := pick + 1; j < len(ref.Receipts) && j < len(tr.Receipts); j++ {
+			if metas[j].kind == "eth" && ref.Receipts[j].Status == tr.Receipts[j].Status {
+				continue // EVM error texts quote balances, which legitimately differ by the fee of the replaced transaction
+			}
 			if ref.Receipts[j].Status != tr.Receipts[j].Status || string(ref.Receipts[j].Ret) != string(tr.Receipts[j].Ret) {
 				s.vio("C07", "failed-tx-influences-later-tx", metas[pick].kind, "block %d: tx %d FAILED (%q) but the receipt of tx %d differs from the run where it is replaced by an empty transaction: %q vs %q", h, pick, rc.Ret, j, ref.Receipts[j].Ret, tr.Receipts[j].Ret)
 				break
@@ -295,3 +326,15 @@ resync:
 }
 
 var _ = fmt.Sprint
+
+func dumpValue(d [][2]string, k string) string {
+	for _, kv := range d {
+		if kv[0] == k {
+			if len(kv[1]) > 160 {
+				return kv[1][:160] + "…"
+			}
+			return kv[1]
+		}
+	}
+	return "<absent>"
+}
